@@ -733,7 +733,7 @@ pub fn spec_u_a(level: u8) -> Spec {
     s
 }
 
-/// `U_B`: root instance W0 {n0 root, n1, e0: n0→n1 | n1→n0 | absent} and child instances W1
+/// `U_B`: root instance W0 {n0 root, n1, e0: n0→n1 | n1→n0 | n0→n0 | absent} and child instances W1
 /// (portal on node n1, on node n0, or on edge e0) and W2 (portal inside W1), with child roots and
 /// optional extra nodes/edges/attachments inside the children.
 pub fn spec_u_b(level: u8) -> Spec {
@@ -779,7 +779,10 @@ pub fn spec_u_b(level: u8) -> Spec {
         ((2, 0), vec![None, Some(0)]),
     ];
     s.edges = vec![
-        ((0, 0), vec![None, edge(0, 1, 0), edge(1, 0, 0)]),
+        // n0→n1, n1→n0 (unreachable unless n1 is reached otherwise) and the self-loop n0→n0: an
+        // edge whose target is ALREADY visited when the edge is scanned, so an edge-owned portal on
+        // it is the only way its child instance becomes reachable
+        ((0, 0), vec![None, edge(0, 1, 0), edge(1, 0, 0), edge(0, 0, 0)]),
         ((1, 0), vec![None, edge(0, 1, 0)]),
     ];
     s.atts = vec![
